@@ -1,0 +1,66 @@
+// Copyright 2017 Pilosa Corp.
+//
+// Licensed under the Apache License, Version 2.0 (the "License");
+// you may not use this file except in compliance with the License.
+// You may obtain a copy of the License at
+//
+//     http://www.apache.org/licenses/LICENSE-2.0
+//
+// Unless required by applicable law or agreed to in writing, software
+// distributed under the License is distributed on an "AS IS" BASIS,
+// WITHOUT WARRANTIES OR CONDITIONS OF ANY KIND, either express or implied.
+// See the License for the specific language governing permissions and
+// limitations under the License.
+
+//go:build verif
+// +build verif
+
+package roaring
+
+import "unsafe"
+
+// Export shims for the verification harness (/verif, property C03). Add-only, tag-guarded.
+
+// VerifC03Cont describes one container of a bitmap: which object it is, where its data
+// lives and its copy-on-write flags.
+type VerifC03Cont struct {
+	Key    uint64
+	Obj    uintptr // address of the Container object
+	Data   uintptr // address of its data
+	Bytes  uintptr // size of its data in bytes
+	N      int32
+	Frozen bool
+	Mapped bool
+}
+
+// VerifC03Conts lists the containers of b in key order.
+func VerifC03Conts(b *Bitmap) []VerifC03Cont {
+	if b == nil || b.Containers == nil {
+		return nil
+	}
+	var out []VerifC03Cont
+	citer, _ := b.Containers.Iterator(0)
+	for citer.Next() {
+		k, c := citer.Value()
+		if c == nil {
+			continue
+		}
+		sz := uintptr(c.len) * 2
+		switch c.typeID {
+		case containerBitmap:
+			sz = uintptr(c.len) * 8
+		case containerRun:
+			sz = uintptr(c.len) * 4
+		}
+		out = append(out, VerifC03Cont{
+			Key:    k,
+			Obj:    uintptr(unsafe.Pointer(c)),
+			Data:   uintptr(unsafe.Pointer(c.pointer)),
+			Bytes:  sz,
+			N:      c.n,
+			Frozen: c.flags&flagFrozen != 0,
+			Mapped: c.flags&flagMapped != 0,
+		})
+	}
+	return out
+}
